@@ -147,9 +147,9 @@ def run(ctx):
                             f.write(line if line.endswith("\n") else line + "\n")
             runs.append(("corpus", "-replay %s" % path))
         if quick:
-            runs.append(("fresh", "-seed %d -n 120 -nraw 300 -nall 24 -nbig 2" % ctx.seed))
+            runs.append(("fresh", "-seed %d -n 120 -nraw 300 -nall 24 -nbig 2 -exh 3" % ctx.seed))
         else:
-            runs.append(("fresh", "-seed %d -n 1500 -nraw 6000 -nall 600 -nbig 6 -bigcuts full" % ctx.seed))
+            runs.append(("fresh", "-seed %d -n 1500 -nraw 6000 -nall 600 -nbig 6 -bigcuts full -exh 5" % ctx.seed))
 
     all_mism, all_fail, total, hist_all, samples, distinct = [], [], 0, {}, [], set()
     for sub, args in runs:
@@ -180,7 +180,7 @@ def run(ctx):
 
     def search():
         # larger generation judged by the direct oracle only
-        d2, err, _ = run_both(ctx, "search", "-seed %d -n 600 -nraw 3000 -nall 100 -nbig 2" % (ctx.seed + 1000003))
+        d2, err, _ = run_both(ctx, "search", "-seed %d -n 600 -nraw 3000 -nall 100 -nbig 2 -exh 4" % (ctx.seed + 1000003))
         if d2 is None:
             return []
         cases = parse_cases(os.path.join(d2, "cases.tsv"))
@@ -197,7 +197,7 @@ def run(ctx):
         traces_validated_against_impl=total,
         evaluations=total + sum(v for k, v in hist_all.items() if k.startswith("cut-")),
         distinct_nontrivial=len(distinct),
-        rule="cases from one seeded PRNG. S = message sequence -> real encoder -> bytes -> real decoder (compared byte for byte and "
+        rule="cases from one seeded PRNG plus an exhaustive small scope (every msgappv2 sequence of length <= 3 quick / 5 thorough over a 9-letter alphabet built to separate the conjuncts of isContinue on two groups). S = message sequence -> real encoder -> bytes -> real decoder (compared byte for byte and "
              "message for message with the model; decoded again at every listed truncation point): msgappv2 streams of 1-4 raft groups "
              "interleaved (replicate / probe / term change / link heartbeat), the same with messages the stream never carries in "
              "production (correspondence only), all message types with arbitrary field values on the plain codec, entries and messages of "
